@@ -49,8 +49,7 @@ func TestVerifC17Marshaler(t *testing.T) {
 			ri *rendezvous.RotationInterval
 			id peer.ID
 		}
-		var sides []*side
-		for i := 0; i < 2; i++ {
+		mkSide := func() *side {
 			ss, err := secretstore.NewInMemSecretStore(nil)
 			if err != nil {
 				t.Fatal(err)
@@ -67,8 +66,9 @@ func TestVerifC17Marshaler(t *testing.T) {
 			}
 			m.RegisterSharedKeyForTopic(topic, sk)
 			m.RegisterGroup(topic, g)
-			sides = append(sides, &side{m, ri, id})
+			return &side{m, ri, id}
 		}
+		sides := []*side{mkSide(), mkSide()}
 		var trace []string
 		// registration in the same or in different periods
 		sides[0].ri.RegisterRotation(now, topic, key)
@@ -89,6 +89,14 @@ func TestVerifC17Marshaler(t *testing.T) {
 			}
 			from := rng.Intn(2)
 			a, b := sides[from], sides[1-from]
+			if rng.Intn(4) == 0 {
+				// a device that starts now (registers in the current period, knows no older rotation value) takes the
+				// place of the receiver: it must accept what a long-running sender marshals now
+				b = mkSide()
+				b.ri.RegisterRotation(now, topic, key)
+				sides[1-from] = b
+				trace = append(trace, fmt.Sprintf("restart(%d)", 1-from))
+			}
 			// the statement is about peers that have each resolved the topic in the current period
 			if _, err := a.ri.PointForTopic(topic); err != nil {
 				rep.Violate("C17/registered-topic-not-resolved", err.Error(), trace)
